@@ -9,7 +9,9 @@ from __future__ import annotations
 import ast
 
 from ..fdai import Interp, Obj, PyRaise, Unknown, ExcVal, explore, freeze, Imprecise
-from ..loader import AnchorError, src, walk_no_nested
+from ..loader import AnchorError, is_self_attr, src, walk_no_nested
+from ..resolve import Resolver
+from ..rules import dict_key_field
 
 LOOPS = "operon_ai/topology/loops.py"
 SPEC_ALPHABET = ["EXECUTE", "PERMIT", "BLOCK", "FAILURE", "DEFER", "UNKNOWN"]
@@ -37,6 +39,83 @@ def gates(p):
     return [n for n, _ in g.enum_members()]
 
 
+class LoopNames:
+    """Private fields and methods of the loop, identified by role instead of by name:
+    fields through the public accessor that exposes them (get_circuit_breaker_stats), methods through what they do
+    (who moves the breaker to HALF_OPEN, who counts a failure, who closes it again) and where they sit below run()."""
+
+    def __init__(self, p, loop, cstate):
+        self.p, self.loop = p, loop
+        g = lambda k: dict_key_field(p, loop, "get_circuit_breaker_stats", k)
+        self.state, self.count, self.successes, self.last_failure, self.trips = g("state"), g("failure_count"), g("success_count"), g("last_failure"), g("trips_count")
+        for nm, v in (("state", self.state), ("failure_count", self.count), ("last_failure", self.last_failure), ("trips_count", self.trips)):
+            if v is None:
+                raise AnchorError(f"CoherentFeedForwardLoop: the field behind get_circuit_breaker_stats().{nm} could not be identified")
+        res = self.res = Resolver(p)
+        run = p.find_method(loop, "run")
+        if run is None:
+            raise AnchorError("CoherentFeedForwardLoop.run not found")
+        below = [f for f in res.reachable_from(run) if f.cls is loop and f.key != run.key]
+        reach = {f.key: {x.key for x in res.reachable_from(f)} for f in below}
+
+        def writes_state(f, member):
+            for n in walk_no_nested(f.node):
+                if isinstance(n, ast.Assign) and any(is_self_attr(t, self.state) for t in n.targets) and src(n.value).endswith("." + member):
+                    return True
+            return False
+
+        def increments_count(f):
+            for n in walk_no_nested(f.node):
+                if isinstance(n, ast.AugAssign) and is_self_attr(n.target, self.count) and isinstance(n.op, ast.Add):
+                    return True
+                if isinstance(n, ast.Assign) and any(is_self_attr(t, self.count) for t in n.targets) and isinstance(n.value, ast.BinOp) and isinstance(n.value.op, ast.Add) and any(is_self_attr(x, self.count) for x in ast.walk(n.value)):
+                    return True
+            return False
+        role_writers = {"admit": {f.key for f in below if writes_state(f, "HALF_OPEN")},
+                        "failure": {f.key for f in below if increments_count(f)},
+                        "success": {f.key for f in below if writes_state(f, "CLOSED")}}
+        calls_agents = {f.key for f in below if any(isinstance(n, ast.Call) and isinstance(n.func, ast.Attribute) and n.func.attr == "express" for n in ast.walk(f.node))}
+        self.roles = {}
+        for role, writers in role_writers.items():
+            if not writers:
+                raise AnchorError(f"CoherentFeedForwardLoop: no method below run() plays the breaker role '{role}' (writes of self.{self.state} / self.{self.count})")
+            others = set().union(*[w for r, w in role_writers.items() if r != role])
+            cands = [f for f in below if reach[f.key] & writers and not (reach[f.key] & others) and not (reach[f.key] & calls_agents)]
+            cands = [f for f in cands if [a for a in f.params() if a != "self"] == []]      # the breaker's own operations take no argument
+            if role == "admit":
+                cands = [f for f in cands if _returns_bool(f)]
+            outer = [f for f in cands if not any(f.key in reach[g.key] for g in cands if g.key != f.key)]
+            if len(outer) != 1:
+                raise AnchorError(f"CoherentFeedForwardLoop: breaker role '{role}' is played by {[f.qual for f in outer] or 'no method'} (one expected)")
+            self.roles[role] = outer[0]
+        self.admit, self.rec_failure, self.rec_success = self.roles["admit"], self.roles["failure"], self.roles["success"]
+        self.reset = p.find_method(loop, "reset_circuit_breaker")
+        if self.reset is None:
+            raise AnchorError("CoherentFeedForwardLoop.reset_circuit_breaker (public) not found")
+        self.run = run
+        # cache lookup: the outermost method below run() that tests an entry's age against the public `cache_ttl`
+        cc = [f for f in below if any(isinstance(n, ast.Compare) and any(is_self_attr(x, "cache_ttl") for x in ast.walk(n)) for n in ast.walk(f.node))]
+        cc = [f for f in below if reach[f.key] & {x.key for x in cc} and not (reach[f.key] & calls_agents)]
+        outer = [f for f in cc if not any(f.key in reach[g.key] for g in cc if g.key != f.key)]
+        self.cache_check = outer[0] if len(outer) == 1 else None
+        # every method that belongs to the breaker (may write its fields)
+        self.breaker_methods = {"__init__", self.reset.name}
+        for f in (self.admit, self.rec_failure, self.rec_success):
+            self.breaker_methods |= {x.name for x in res.reachable_from(f) if x.cls is loop}
+
+    def describe(self):
+        return dict(state=self.state, failure_count=self.count, last_failure=self.last_failure, trips=self.trips, admission=self.admit.qual,
+                    failure_recorder=self.rec_failure.qual, success_recorder=self.rec_success.qual, cache_lookup=self.cache_check.qual if self.cache_check else None)
+
+
+def _returns_bool(f):
+    ann = f.node.returns
+    if ann is not None and src(ann) == "bool":
+        return True
+    rets = [n.value for n in walk_no_nested(f.node) if isinstance(n, ast.Return)]
+    return bool(rets) and all(isinstance(v, ast.Constant) and isinstance(v.value, bool) or isinstance(v, (ast.Compare, ast.BoolOp)) or (isinstance(v, ast.UnaryOp) and isinstance(v.op, ast.Not)) for v in rets)
+
+
 class Harness:
     def __init__(self, p):
         self.p = p
@@ -44,9 +123,9 @@ class Harness:
         self.gate = p.cls("GateLogic", LOOPS)
         self.cstate = p.cls("CircuitState", LOOPS)
         self.ap = p.cls("ActionProtein", "operon_ai/core/types.py")
-        for m in ("run", "_apply_gate_logic", "_check_circuit", "_record_failure", "_record_success", "reset_circuit_breaker"):
-            if p.find_method(self.loop, m) is None:
-                raise AnchorError(f"CoherentFeedForwardLoop.{m} not found")
+        self.names = N = LoopNames(p, self.loop, self.cstate)
+        self.CALL = {k: ("call", f.qual) for k, f in (("admit", N.admit), ("failure", N.rec_failure), ("success", N.rec_success))}
+        self.CALL["cache"] = ("call", N.cache_check.qual) if N.cache_check else None
 
     def build(self, o, gate, breaker, cache, state="CLOSED", verdicts=("EXECUTE", "PERMIT"), prompt=None, silent=True, interp_cls=None):
         """returns (interp, loop object).  verdicts: (executor, assessor) — each a verdict string or EXC"""
@@ -72,21 +151,21 @@ class Harness:
 
         it.stubs["BioAgent.__init__"] = bio_init
         it.stubs["BioAgent.express"] = bio_express
-        it.trace_calls = {"CoherentFeedForwardLoop._record_failure", "CoherentFeedForwardLoop._record_success",
-                          "CoherentFeedForwardLoop._check_cache", "CoherentFeedForwardLoop._check_circuit"}
+        N = self.names
+        it.trace_calls = {f.qual for f in (N.admit, N.rec_failure, N.rec_success, N.cache_check) if f is not None}
         budget = Obj(None, {}, tag="budget")
         obj = it.instantiate(self.loop, [], dict(
             budget=budget, gate_logic=it.enum_member(self.gate, gate) if isinstance(gate, str) else gate,
             enable_circuit_breaker=breaker, failure_threshold=Unknown("failure_threshold"),
             recovery_timeout_seconds=Unknown("recovery_timeout_seconds"), enable_cache=cache,
             cache_ttl_seconds=Unknown("cache_ttl_seconds"), silent=silent, on_block=None, on_permit=None))
-        obj.fields["_circuit_state"] = it.enum_member(self.cstate, state)
-        for f in ("_failure_count", "_success_count", "_last_failure", "_trips_count"):
-            obj.fields[f] = Unknown(f)
+        obj.fields[N.state] = it.enum_member(self.cstate, state)
+        for f in (N.count, N.successes, N.last_failure, N.trips):
+            if f is not None:
+                obj.fields[f] = Unknown(f)
         it.events.clear()
         it.decisions.clear()
-        it.watch_fields = {("CoherentFeedForwardLoop", "_circuit_state"), ("CoherentFeedForwardLoop", "_failure_count"),
-                           ("CoherentFeedForwardLoop", "_last_failure"), ("CoherentFeedForwardLoop", "_trips_count")}
+        it.watch_fields = {("CoherentFeedForwardLoop", f) for f in (N.state, N.count, N.last_failure, N.trips)}
         return it, obj
 
     def run_once(self, o, gate, breaker, cache, state, verdicts, times=1):
@@ -101,7 +180,7 @@ class Harness:
                 results.append(dict(kind="return", obj=r, fields=dict(r.fields) if isinstance(r, Obj) else None, events=it.events[mark:], snap=freeze(r)))
             except PyRaise as e:
                 results.append(dict(kind="raise", exc=repr(e.exc), events=it.events[mark:]))
-        return dict(results=results, final_state=obj.fields["_circuit_state"], decisions=list(it.decisions), loop=obj, assessor_name=_name(obj, "assessor"))
+        return dict(results=results, final_state=obj.fields[self.names.state], decisions=list(it.decisions), loop=obj, assessor_name=_name(obj, "assessor"))
 
 
 def _name(obj, who):
